@@ -151,8 +151,12 @@ def check_dedup(ctx: Context, rep, rule: str) -> None:
            where=mg.qualname, construct=short(rec[0], 100) if rec else "<none>",
            message="recursion descends exactly one directory level in the "
            "same dataset")
-    lvl = [c for c in mg.body_nodes() if isinstance(c, ast.Compare) and
-           "len(" in ast.unparse(c.left) and ".parts" in ast.unparse(c.left)]
+    from sa.norm import expand as _expand
+    lvl = [_expand(mg, c) for c in mg.body_nodes()
+           if isinstance(c, ast.Compare)]
+    lvl = [c for c in lvl if ast.unparse(c.left).startswith("len(") and
+           ast.unparse(c.left).endswith(".parts)") and
+           ast.unparse(c.left).count("len(") == 1]
     forms = sorted(ast.unparse(c.ops[0].__class__()) if False else
                    type(c.ops[0]).__name__ + " " + ast.unparse(c.comparators[0])
                    for c in lvl)
@@ -391,19 +395,20 @@ def run(ctx: Context, rep) -> None:
         for c in ast.walk(arg):
             if isinstance(c, ast.Call) and ast.unparse(c.func).endswith(
                     "_get_config_path") and c.args:
-                root = ast.unparse(c.args[0])
+                from sa.norm import canon as _canon
+                root = _canon(cr, c.args[0])
         mk = [c for c in cr.calls() if isinstance(c.func, ast.Attribute) and
               c.func.attr == "mkdir"]
         wr = [c for c in cr.calls() if ctx.is_call(cr, c, method="write_config")]
         same = root is not None and all(
-            ast.unparse(m.func.value) == root for m in mk) and all(
-                root.startswith(ast.unparse(w.func.value)) for w in wr)
+            _canon(cr, m.func.value) == root for m in mk) and all(
+                root.startswith(_canon(cr, w.func.value)) for w in wr)
         ds_t = ctx.res.infer(cr, ast.parse(root.rsplit(".", 1)[0],
                                            mode="eval").body) if root and "." in root else None
         rep.ob("C08.create", bool(same) and root.endswith(".path") and
                ds_t is not None and ds_t.name.endswith("Dataset"),
                loc=cr.loc(t), where=cr.qualname,
-               construct=f"tested root {root}; mkdir on "
+               construct=f"tested root {root[:60]}; mkdir on "
                f"{[ast.unparse(m.func.value) for m in mk]}",
                message="the existence test looks at the same (resolved) "
                "directory that is created and written")
